@@ -25,6 +25,30 @@ class Unit:
         self.enums = data.get("enums", [])
         self.summaries = data.get("summaries", [])
         self.cmd = cmd
+        dump = os.environ.get("VERIF_DUMP_FUNCS")
+        if dump:
+            # tools/autoequiv.py: which function bodies (file, line range, local names) the rules looked at
+            with open(dump, "a") as f:
+                for fn in self.functions:
+                    if fn.body is None:
+                        continue
+                    loc, other = set(), set()
+                    for n in fn.walk():
+                        if n.k == "VarDecl" and n.get("n"):
+                            loc.add(n.get("n"))
+                        elif n.k == "DeclRefExpr" and n.get("dk") in ("local", "param", "staticlocal", "binding"):
+                            pass
+                        elif n.get("n"):
+                            other.add(str(n.get("n")).split("::")[-1])
+                        if n.is_call() and n.callee:
+                            other.add(n.callee.split("::")[-1])
+                    for it, _n in fn.inits:
+                        if it.get("field"):
+                            other.add(it["field"])
+                    for p_ in fn.params:
+                        if p_.get("n"):
+                            loc.add(p_["n"])
+                    f.write(json.dumps({"file": fn.file, "line": fn.line, "endline": fn.endline, "qn": fn.qn, "locals": sorted(loc), "other": sorted(other)}) + "\n")
 
     def fns(self, qn=None, suffix=None, inst=None):
         out = []
